@@ -200,6 +200,14 @@ carquet_schema_t* build_schema(
      * num_children while carquet_schema_node_is_leaf() reports has_type; a
      * footer where the two disagree would give callers a different idea of the
      * columns (and of their value widths) than the reader has. */
+    /* The root is the message itself: always a group (it may have no children),
+     * never a column. A root carrying a physical type would be reported as a
+     * leaf by carquet_schema_node_is_leaf() without being one of the columns. */
+    if (metadata->schema[0].has_type || metadata->schema[0].num_children < 0) {
+        CARQUET_SET_ERROR(error, CARQUET_ERROR_INVALID_SCHEMA,
+            "Schema root element is not a group");
+        return NULL;
+    }
     for (int32_t i = 1; i < metadata->num_schema_elements; i++) {
         const parquet_schema_element_t* e = &metadata->schema[i];
         if (e->num_children < 0 || (e->num_children > 0) == e->has_type) {
